@@ -96,6 +96,8 @@ def same_value(a, b, tol, absval=False, modpi=False):
     if ka == "obj":
         if a.tensor_shape != b.tensor_shape or a.free_indices != b.free_indices or family(a) != family(b):
             return False
+        if getattr(a, "is_dual", None) != getattr(b, "is_dual", None):
+            return False
         from geometer.shapes import PolytopeTensor
         if isinstance(a, PolytopeTensor):
             xa, xb = np.asarray(a.array), np.asarray(b.array)
@@ -272,7 +274,8 @@ def ops(rng):
     add("polygon3.area-then-contains", lambda t, p: (t.area, t.contains(p)), poly3, nomix=True)
     add("polygon3.contains", lambda t, p: t.contains(p), poly3, nomix=True)
     add("quadric3.degenerate-intersect", lambda q, l: q.intersect(l), lambda: (plane_pair_or_cone(), line3()), tol=1e-6, nomix=True)
-    add("conic.dual-roundtrip", lambda q: (q.dual.dual, q.dual.is_dual), lambda: (circle_and_point()[0],))
+    add("conic.dual", lambda q: (q.dual, q.dual.dual), lambda: (circle_and_point()[0],))
+    add("quadric.dual", lambda q: (q.dual, q.dual.dual), lambda: (sphere_and_point()[0],))
     add("join-pp", lambda p, q: g.join(p, q), lambda: (lambda p: (p, g.Point(np.asarray(p.normalized_array) + np.array([1.0, rat(rng), 0.0]))))(pt2(1.0)))
     add("meet-ll", lambda l, m: g.meet(l, m), lambda: (lambda l: (l, g.Line(np.asarray(l.array) + np.array([1.0, -1.0, rat(rng)]))))(line2()))
     return T
